@@ -3,13 +3,20 @@
  * op file (one op per line; trees are named by small integers):
  *   key kinds    i = Int (8 bytes), s = String (8 bytes), w = struct K3 { int64_t a, b, c; } with a lexicographic Cmp
  *                instance (24 bytes), written `a,b,c`
- *   value kinds  (none) = Int (8 bytes), 3 = struct V3 { int64_t w[3]; } (24 bytes), 5 = struct V5 (40 bytes): plain
- *                structs without instances, written `x,y,z` / `x,y,z,p,q`
+ *   value kinds  (none) = Int (8 bytes), s = String (8 bytes, owns its buffer), 3 = struct V3 { int64_t w[3]; } (24 bytes),
+ *                5 = struct V5 (40 bytes): plain structs without instances, written `x,y,z` / `x,y,z,p,q`
  *   auto 0|1                 dump the whole tree after every mutating op (default 1) or only `n=`
- *   new T <kind> [k v]...    kind = key kind followed by value kind: i s w i3 s3 w3 i5 s5 w5
+ *   new T <kind> [k v]...    kind = key kind followed by value kind: i s w  is ss ws  i3 s3 w3  i5 s5 w5
  *   set T k v      rem T k      get T k      mem T k      len T      resize T n
  *   assign T S               copy T S       iter T       riter T      del T        check T
  *   remroot T                rem of the key at the root          rem2 T   rem of the first node (preorder) with two children
+ *   arguments that are the tree's OWN objects (K = the key object `foreach (K in t)` hands out for the key k; get(t, k2) = the
+ *   value object inside the node of k2):
+ *   setk T k v               set(t, K, v)             setv T k k2    set(t, k, get(t, k2))     setkv T k k2   set(t, K, get(t, k2))
+ *   getk T k    memk T k    remk T k                  get / mem / rem given K (for rem: K lives in the node that is removed)
+ *   walk T v                 foreach (K in t) { set(t, K, v); }        walkself T    foreach (K in t) { set(t, K, get(t, K)); }
+ *   assignmap T <kind> [k v]...   assign(t, obj) with obj a map that is NOT a Tree (PMap below: pairs iterated in this order)
+ *   newodd T <kind> a b ... (odd count)   new(Tree, K, V, a, b, ...) with an odd number of arguments: FormatError, no tree
  *
  * O lines (reproduced verbatim by lean/Driver/Tree.lean from the model):
  *   O <op> <outcome> n=<nitems> ok=<0|1> h=<height> sz=<ksize>/<vsize> t=<preorder "(Ck:v left right)", "." = NULL | #hash when n>40>
@@ -55,18 +62,41 @@ struct V5 { int64_t w[5]; };  var V5 = Cello(V5);
 
 enum { KI = 0, KS = 1, KW = 2 };
 typedef struct { long k[3]; const char* s; } KeyV;      /* a key: k[0] (Int), s (String), k[0..2] (K3) */
-typedef struct { long k[3]; char* s; long v[MAXW]; } Ent;       /* reference entry: key and whole value */
-typedef struct { Ent** e; size_t n, cap; int kk; int vw; } RefMap;  /* sorted array of pointers; kk = key kind, vw = words in a value */
+typedef struct { long k[3]; char* s; long v[MAXW]; char* sv; } Ent;       /* reference entry: key and whole value (sv: String value) */
+typedef struct { Ent** e; size_t n, cap; int kk; int vw; } RefMap;  /* sorted array of pointers; kk = key kind, vw = words in a value, 0 = String value */
 
 static int kwords(int kk) { return kk == KW ? 3 : 1; }
 static var ktype_of(int kk) { return kk == KS ? String : kk == KW ? K3 : Int; }
-static var vtype_of(int vw) { return vw == 3 ? V3 : vw == 5 ? V5 : Int; }
+static var vtype_of(int vw) { return vw == 0 ? String : vw == 3 ? V3 : vw == 5 ? V5 : Int; }
+static size_t vbytes(int vw) { return vw == 0 ? 8 : (size_t)vw * 8; }
+
+/* a map that is not a Tree: pairs in a fixed order (source of `assign(tree, m)`) */
+struct PMap { var kt; var vt; size_t n; var* ks; var* vs; };
+static size_t PMap_Len(var self) { return ((struct PMap*)self)->n; }
+static var PMap_Iter_Init(var self) { struct PMap* m = self; return m->n ? m->ks[0] : Terminal; }
+static var PMap_Iter_Next(var self, var cur) {
+  struct PMap* m = self;
+  for (size_t i = 0; i < m->n; i++) if (m->ks[i] == cur) return i + 1 < m->n ? m->ks[i + 1] : Terminal;
+  return Terminal;
+}
+static var PMap_Iter_Type(var self) { return ((struct PMap*)self)->kt; }
+static var PMap_Get(var self, var key) {
+  struct PMap* m = self;
+  for (size_t i = 0; i < m->n; i++) if (m->ks[i] == key) return m->vs[i];
+  return throw(KeyError, "Key %$ not in PMap!", key);
+}
+static var PMap_Key_Type(var self) { return ((struct PMap*)self)->kt; }
+static var PMap_Val_Type(var self) { return ((struct PMap*)self)->vt; }
+var PMap = Cello(PMap, Instance(Len, PMap_Len), Instance(Iter, PMap_Iter_Init, PMap_Iter_Next, NULL, NULL, PMap_Iter_Type),
+  Instance(Get, PMap_Get, NULL, NULL, NULL, PMap_Key_Type, PMap_Val_Type));
 
 static size_t lineno = 0;
 static int automode = 1;
 static size_t st_ops = 0, st_set_new = 0, st_set_upd = 0, st_rem = 0, st_rem2 = 0, st_remroot = 0, st_remblack = 0,
   st_keyerr = 0, st_maxn = 0, st_maxh = 0, st_checks = 0, st_iters = 0, st_rem2_wide = 0,
-  st_assign_empty = 0, st_assign_one = 0, st_assign_retype = 0;
+  st_assign_empty = 0, st_assign_one = 0, st_assign_retype = 0,
+  st_own_key = 0, st_own_val = 0, st_self_key_assign = 0, st_self_val_assign = 0, st_self_string_assign = 0, st_walk = 0,
+  st_assign_map = 0, st_new_odd = 0;
 
 /* ------------------------------------------------------------------------------------------------ reference map */
 static int ref_cmp(const RefMap* r, const Ent* a, const KeyV* k) {
@@ -84,19 +114,21 @@ static int ref_find(const RefMap* r, const KeyV* k, size_t* at) {
   size_t p = ref_lower(r, k); *at = p;
   return p < r->n && ref_cmp(r, r->e[p], k) == 0;
 }
-static void ent_free(Ent* e) { free(e->s); free(e); }
+static void ent_free(Ent* e) { free(e->s); free(e->sv); free(e); }
 static void ref_clear(RefMap* r) {
   for (size_t i = 0; i < r->n; i++) ent_free(r->e[i]);
   r->n = 0;
 }
-static void ref_set(RefMap* r, const KeyV* k, const long* v) {
+static void ref_set(RefMap* r, const KeyV* k, const long* v, const char* sv) {
   size_t p;
-  if (ref_find(r, k, &p)) { memcpy(r->e[p]->v, v, sizeof r->e[p]->v); return; }
+  if (ref_find(r, k, &p)) {
+    memcpy(r->e[p]->v, v, sizeof r->e[p]->v);
+    char* n = sv ? strdup(sv) : NULL; free(r->e[p]->sv); r->e[p]->sv = n; return; }
   if (r->n == r->cap) { r->cap = r->cap ? r->cap * 2 : 16; r->e = realloc(r->e, r->cap * sizeof(Ent*)); }
   memmove(&r->e[p+1], &r->e[p], (r->n - p) * sizeof(Ent*));
   Ent* e = malloc(sizeof(Ent));
   memcpy(e->k, k->k, sizeof e->k); e->s = k->s ? strdup(k->s) : NULL;
-  memcpy(e->v, v, sizeof e->v); r->e[p] = e; r->n++;
+  memcpy(e->v, v, sizeof e->v); e->sv = sv ? strdup(sv) : NULL; r->e[p] = e; r->n++;
 }
 static int ref_rem(RefMap* r, const KeyV* k) {
   size_t p;
@@ -110,7 +142,7 @@ static void ref_copy(RefMap* dst, const RefMap* src) {
   ref_clear(dst); dst->kk = src->kk; dst->vw = src->vw;
   if (dst->cap < src->n) { dst->cap = src->n + 16; dst->e = realloc(dst->e, dst->cap * sizeof(Ent*)); }
   for (size_t i = 0; i < src->n; i++) {
-    Ent* e = malloc(sizeof(Ent)); *e = *src->e[i]; if (e->s) e->s = strdup(e->s);
+    Ent* e = malloc(sizeof(Ent)); *e = *src->e[i]; if (e->s) e->s = strdup(e->s); if (e->sv) e->sv = strdup(e->sv);
     dst->e[i] = e;
   }
   dst->n = src->n;
@@ -146,7 +178,9 @@ static uint64_t node_keyhash(struct Tree* m, var node, int kk) {
   if (kk == KS) return str_hash(c_str(Tree_Key(m, node)));
   long w[3]; node_keywords(m, node, kk, w); return words_hash(w, kwords(kk));
 }
-static uint64_t node_valhash(struct Tree* m, var node, int vw) { long w[MAXW]; node_valwords(m, node, vw, w); return words_hash(w, vw); }
+static uint64_t node_valhash(struct Tree* m, var node, int vw) {
+  if (vw == 0) return str_hash(c_str(Tree_Val(m, node)));
+  long w[MAXW]; node_valwords(m, node, vw, w); return words_hash(w, vw); }
 static uint64_t tree_hash(struct Tree* m, var node, const RefMap* r) {
   if (node == NULL) return 0x9E3779B97F4A7C15ULL;
   uint64_t h = FNV_INIT;
@@ -171,7 +205,8 @@ static void dput_words(const long* w, int n) {
 static void dput_entry(struct Tree* m, var node, const RefMap* r) {      /* key:value */
   long w[MAXW];
   if (r->kk == KS) dput(c_str(Tree_Key(m, node))); else { node_keywords(m, node, r->kk, w); dput_words(w, kwords(r->kk)); }
-  dput(":"); node_valwords(m, node, r->vw, w); dput_words(w, r->vw);
+  dput(":");
+  if (r->vw == 0) dput(c_str(Tree_Val(m, node))); else { node_valwords(m, node, r->vw, w); dput_words(w, r->vw); }
 }
 static void preorder(struct Tree* m, var node, const RefMap* r, int depth) {
   if (node == NULL) { dput("."); return; }
@@ -208,6 +243,7 @@ static int key_matches(struct Tree* m, var node, const RefMap* r, const Ent* e) 
 }
 /* whole value of the node == value of the reference entry (every word) */
 static int val_matches(struct Tree* m, var node, const RefMap* r, const Ent* e) {
+  if (r->vw == 0) return e->sv && strcmp(c_str(Tree_Val(m, node)), e->sv) == 0;
   long w[MAXW]; node_valwords(m, node, r->vw, w);
   return memcmp(w, e->v, r->vw * sizeof(long)) == 0;
 }
@@ -241,7 +277,7 @@ static int rb_check(struct Tree* m, const RefMap* r, int* height_out, int report
   }
   /* the sizes the Tree works with are those of its key / value types */
   int sized = m->ktype == ktype_of(r->kk) && m->vtype == vtype_of(r->vw)
-    && m->ksize == (size_t)kwords(r->kk) * 8 && m->vsize == (size_t)r->vw * 8;
+    && m->ksize == (size_t)kwords(r->kk) * 8 && m->vsize == vbytes(r->vw);
   int ok = !rootred && !W.rr && !W.bh_bad && !W.deep && desc && W.count == m->nitems && (sized || W.count == 0);
   if (report) {
     if (rootred) X("sig=tree-rb line=%zu what=root is red", lineno);
@@ -251,7 +287,7 @@ static int rb_check(struct Tree* m, const RefMap* r, int* height_out, int report
     if (!mono) X("sig=tree-order line=%zu what=in-order key sequence of the nodes is not strictly monotone", lineno);
     if (W.count != m->nitems) X("sig=tree-count line=%zu what=%zu nodes reachable but nitems=%zu", lineno, W.count, m->nitems);
     if (!sized) X("sig=tree-size line=%zu what=ksize/vsize %zu/%zu or the types are not those of the tree's key/value types (%d/%d bytes)",
-                  lineno, m->ksize, m->vsize, kwords(r->kk) * 8, r->vw * 8);
+                  lineno, m->ksize, m->vsize, kwords(r->kk) * 8, (int)vbytes(r->vw));
     /* height <= 2*log2(n+1)  <=>  2^height <= (n+1)^2 */
     size_t n = W.count;
     if (height >= 120 || ((unsigned __int128)1 << height) > (unsigned __int128)(n + 1) * (n + 1))
@@ -301,6 +337,7 @@ static void iter_check(var t, struct Tree* m, const RefMap* r) {
 
 /* key / value objects for a call; compound literals: valid until the end of the enclosing block */
 #define KEYOBJ(kk, kv) ((kk) == KS ? (var)$S((char*)(kv).s) : (kk) == KW ? (var)$(K3, (kv).k[0], (kv).k[1], (kv).k[2]) : (var)$I((kv).k[0]))
+#define VALOBJS(vw, v, sv) ((vw) == 0 ? (var)$S((char*)(sv)) : VALOBJ(vw, v))
 #define VALOBJ(vw, v) ((vw) == 3 ? (var)$(V3, {(v)[0], (v)[1], (v)[2]}) : (vw) == 5 ? (var)$(V5, {(v)[0], (v)[1], (v)[2], (v)[3], (v)[4]}) : (var)$I((v)[0]))
 
 /* len / mem / get against the reference for every key of the map and for neighbours that are absent */
@@ -314,6 +351,9 @@ static void map_check(var t, const RefMap* r, int full) {
     if (!mem(t, key)) X("sig=tree-map line=%zu what=mem false for a key of the map", lineno);
     V_TRY(exc, val = get(t, key));
     if (exc) X("sig=tree-keyerror line=%zu what=get raised %s for a key of the map", lineno, v_exc_name(exc));
+    else if (r->vw == 0) {
+      if (strcmp(c_str(val), r->e[i]->sv)) X("sig=tree-map line=%zu what=get returned the String \"%.40s\", map has \"%.40s\"", lineno, c_str(val), r->e[i]->sv);
+    }
     else {
       long w[MAXW]; obj_valwords(val, r->vw, w);
       for (int j = 0; j < r->vw; j++) if (w[j] != r->e[i]->v[j]) {
@@ -399,13 +439,31 @@ static int parse_key(const char* tok, int kk, KeyV* k) {
   if (kk == KS) { if (!*tok) return 0; k->s = tok; return 1; }
   return parse_words(tok, kwords(kk), k->k);
 }
+static const char* vs = NULL;      /* the String value of the op being parsed (value kind s) */
 static int parse_val(const char* tok, int vw, long* v) {
-  memset(v, 0, MAXW * sizeof(long));
+  memset(v, 0, MAXW * sizeof(long)); vs = NULL;
+  if (vw == 0) { if (!*tok) return 0; vs = tok; return 1; }
   return parse_words(tok, vw, v);
+}
+/* the key object the tree itself holds for a key, obtained the way a program obtains it: by iterating */
+static var own_key(var t, const RefMap* r, const KeyV* k) {
+  struct Tree* m = t; size_t cnt = 0;
+  for (var key = iter_init(t); key != Terminal; key = iter_next(t, key)) {
+    if (cnt++ > m->nitems) return NULL;
+    if (r->kk == KS) { if (!strcmp(c_str(key), k->s)) return key; }
+    else { long w[3]; node_keywords(m, node_of_key(key), r->kk, w); if (!memcmp(w, k->k, kwords(r->kk) * sizeof(long))) return key; }
+  }
+  return NULL;
+}
+/* print a value object the way the dump prints it */
+static void dput_val(var val, int vw) {
+  if (vw == 0) { dput(c_str(val)); return; }
+  long w[MAXW]; obj_valwords(val, vw, w); dput_words(w, vw);
 }
 static int parse_kind(const char* tok, int* kk, int* vw) {
   if (tok[0] == 'i') *kk = KI; else if (tok[0] == 's') *kk = KS; else if (tok[0] == 'w') *kk = KW; else return 0;
-  if (tok[1] == 0) *vw = 1; else if (!strcmp(tok + 1, "3")) *vw = 3; else if (!strcmp(tok + 1, "5")) *vw = 5; else return 0;
+  if (tok[1] == 0) *vw = 1; else if (!strcmp(tok + 1, "3")) *vw = 3; else if (!strcmp(tok + 1, "5")) *vw = 5;
+  else if (!strcmp(tok + 1, "s")) *vw = 0; else return 0;
   return 1;
 }
 
@@ -449,7 +507,7 @@ int main(int argc, char** argv) {
       for (int i = 0; i < np; i++) {
         parse_key(toks[3+2*i], kk, &kv); parse_val(toks[4+2*i], vw, vv);
         items[2+2*i] = new_raw_with(ktype_of(kk), tuple(KEYOBJ(kk, kv)));
-        items[3+2*i] = new_raw_with(vtype_of(vw), tuple(VALOBJ(vw, vv)));
+        items[3+2*i] = new_raw_with(vtype_of(vw), tuple(VALOBJS(vw, vv, vs)));
       }
       items[2+2*np] = Terminal;
       if (trees[T]) { del(trees[T]); trees[T] = NULL; }
@@ -458,21 +516,148 @@ int main(int argc, char** argv) {
       ref_clear(&refs[T]); refs[T].kk = kk; refs[T].vw = vw;
       for (int i = 0; i < np; i++) {
         parse_key(toks[3+2*i], kk, &kv); parse_val(toks[4+2*i], vw, vv);
-        ref_set(&refs[T], &kv, vv);
+        ref_set(&refs[T], &kv, vv, vs);
       }
       for (int i = 0; i < 2 * np; i++) del_raw(items[2+i]);
       free(items);
       dump_state(dump, sizeof dump, trees[T], &refs[T], automode);
       O("new ok %s", dump); st_ops++;
     }
+    else if (!strcmp(op, "newodd") && ntok >= 4 && (ntok - 3) % 2 == 1) {
+      /* new(Tree, K, V, a, b, ...) with an odd number of arguments: Tree_New raises FormatError after it has set the types and
+         before the first Tree_Set; the storage is released here (no object came into being) */
+      if (!parse_nat(toks[1], &T) || T >= MAXT) BAD;
+      int kk, vw; if (!parse_kind(toks[2], &kk, &vw)) BAD;
+      int na = ntok - 3;
+      for (int i = 0; i < na; i++) { if (i % 2 == 0 ? !parse_key(toks[3+i], kk, &kv) : !parse_val(toks[3+i], vw, vv)) BAD; }
+      var* items = malloc((na + 3) * sizeof(var));
+      items[0] = ktype_of(kk); items[1] = vtype_of(vw);
+      for (int i = 0; i < na; i++) {
+        if (i % 2 == 0) { parse_key(toks[3+i], kk, &kv); items[2+i] = new_raw_with(ktype_of(kk), tuple(KEYOBJ(kk, kv))); }
+        else { parse_val(toks[3+i], vw, vv); items[2+i] = new_raw_with(vtype_of(vw), tuple(VALOBJS(vw, vv, vs))); }
+      }
+      items[2+na] = Terminal;
+      struct Tree* obj = alloc_raw(Tree);
+      var exc; V_TRY(exc, construct_with(obj, $(Tuple, items)));
+      if (exc != FormatError) X("sig=tree-raise line=%zu what=new with an odd argument count: %s instead of FormatError", lineno, v_exc_name(exc));
+      if (obj->nitems != 0 || obj->root != NULL) { X("sig=tree-map line=%zu what=the refused constructor left %zu bindings behind", lineno, obj->nitems); Tree_Clear(obj); }
+      dealloc_raw(obj);
+      for (int i = 0; i < na; i++) del_raw(items[2+i]);
+      free(items);
+      O("newodd %s", exc ? v_exc_name(exc) : "ok"); st_new_odd++; st_ops++;
+    }
+    else if (!strcmp(op, "assignmap") && ntok >= 3 && (ntok - 3) % 2 == 0) {
+      NEED_TREE(1);
+      int kk, vw; if (!parse_kind(toks[2], &kk, &vw)) BAD;
+      int np = (ntok - 3) / 2;
+      for (int i = 0; i < np; i++) { if (!parse_key(toks[3+2*i], kk, &kv) || !parse_val(toks[4+2*i], vw, vv)) BAD; }
+      var* ko = malloc((np + 1) * sizeof(var)); var* vo = malloc((np + 1) * sizeof(var));
+      for (int i = 0; i < np; i++) {
+        parse_key(toks[3+2*i], kk, &kv); parse_val(toks[4+2*i], vw, vv);
+        ko[i] = new_raw_with(ktype_of(kk), tuple(KEYOBJ(kk, kv)));
+        vo[i] = new_raw_with(vtype_of(vw), tuple(VALOBJS(vw, vv, vs)));
+      }
+      var src_map = $(PMap, ktype_of(kk), vtype_of(vw), (size_t)np, ko, vo);
+      var exc; V_TRY(exc, assign(trees[T], src_map));
+      if (exc) X("sig=tree-raise line=%zu what=assign from a map that is not a Tree raised %s", lineno, v_exc_name(exc));
+      ref_clear(&refs[T]); refs[T].kk = kk; refs[T].vw = vw;
+      for (int i = 0; i < np; i++) {
+        parse_key(toks[3+2*i], kk, &kv); parse_val(toks[4+2*i], vw, vv);
+        ref_set(&refs[T], &kv, vv, vs);
+      }
+      for (int i = 0; i < np; i++) { del_raw(ko[i]); del_raw(vo[i]); }
+      free(ko); free(vo);
+      dump_state(dump, sizeof dump, trees[T], &refs[T], automode);
+      O("assignmap %s %s", exc ? v_exc_name(exc) : "ok", dump); st_assign_map++; st_ops++;
+    }
+    else if ((!strcmp(op, "setk") || !strcmp(op, "setv") || !strcmp(op, "setkv")) && ntok == 4) {
+      /* set with the tree's own key object and / or a value object that lives in one of its nodes */
+      NEED_TREE(1);
+      int ownk = op[3] == 'k', ownv = op[3] == 'v' || op[4] == 'v';
+      KeyV k2; memset(&k2, 0, sizeof k2);
+      if (!parse_key(toks[2], refs[T].kk, &kv)) BAD;
+      if (ownv) { if (!parse_key(toks[3], refs[T].kk, &k2)) BAD; } else if (!parse_val(toks[3], refs[T].vw, vv)) BAD;
+      var K = ownk ? own_key(trees[T], &refs[T], &kv) : NULL;
+      if (ownk && !K) BAD;
+      size_t before = len(trees[T]), p, p2;
+      int had = ref_find(&refs[T], &kv, &p);
+      var exc = NULL, V = NULL; long cv[MAXW]; char* csv = NULL; memcpy(cv, vv, sizeof cv);
+      if (ownv) {
+        int had2 = ref_find(&refs[T], &k2, &p2);
+        V_TRY(exc, V = get(trees[T], KEYOBJ(refs[T].kk, k2)));
+        if (had2 && exc) X("sig=tree-keyerror line=%zu what=get of a present key raised %s", lineno, v_exc_name(exc));
+        if (!had2 && exc != KeyError) X("sig=tree-keyerror line=%zu what=get of an absent key raised %s instead of KeyError", lineno, v_exc_name(exc));
+        if (exc) { dump_state(dump, sizeof dump, trees[T], &refs[T], automode); O("%s %s %s", op, v_exc_name(exc), dump); st_keyerr++; st_ops++; goto next; }
+        memcpy(cv, refs[T].e[p2]->v, sizeof cv); csv = refs[T].e[p2]->sv ? strdup(refs[T].e[p2]->sv) : NULL;
+        st_own_val++;
+        if (had && p == p2) { st_self_val_assign++; if (refs[T].vw == 0) st_self_string_assign++; }
+      } else if (vs) csv = strdup(vs);
+      if (ownk) { st_own_key++; st_self_key_assign++; if (refs[T].kk == KS) st_self_string_assign++; }
+      if (ownv) V_TRY(exc, set(trees[T], ownk ? K : KEYOBJ(refs[T].kk, kv), V));
+      else V_TRY(exc, set(trees[T], K, VALOBJS(refs[T].vw, cv, csv)));
+      if (exc) X("sig=tree-raise line=%zu what=set with the tree's own key / value object raised %s", lineno, v_exc_name(exc));
+      ref_set(&refs[T], &kv, cv, csv); free(csv);
+      if (had) st_set_upd++; else st_set_new++;
+      if (len(trees[T]) != before + (had ? 0 : 1)) X("sig=tree-map line=%zu what=set of %s key changed len from %zu to %zu", lineno, had ? "a present" : "an absent", before, len(trees[T]));
+      dump_state(dump, sizeof dump, trees[T], &refs[T], automode);
+      O("%s %s %s", op, exc ? v_exc_name(exc) : "ok", dump); st_ops++;
+    }
+    else if ((!strcmp(op, "getk") || !strcmp(op, "memk") || !strcmp(op, "remk")) && ntok == 3) {
+      NEED_TREE(1); if (!parse_key(toks[2], refs[T].kk, &kv)) BAD;
+      var K = own_key(trees[T], &refs[T], &kv);
+      if (!K) BAD;
+      size_t p; int had = ref_find(&refs[T], &kv, &p);
+      st_own_key++;
+      if (op[0] == 'm') {
+        int got = mem(trees[T], K) ? 1 : 0;
+        if (got != had) X("sig=tree-map line=%zu what=mem of the tree's own key object returned %d, reference map says %d", lineno, got, had);
+        O("memk %d", got);
+      } else if (op[0] == 'g') {
+        var exc, val = NULL; V_TRY(exc, val = get(trees[T], K));
+        if (exc) { X("sig=tree-keyerror line=%zu what=get of the tree's own key object raised %s", lineno, v_exc_name(exc)); O("getk %s", v_exc_name(exc)); }
+        else {
+          if (!had || val != Tree_Val((struct Tree*)trees[T], node_of_key(K)) || !val_matches(trees[T], node_of_key(K), &refs[T], refs[T].e[p]))
+            X("sig=tree-map line=%zu what=get of the tree's own key object returned a value that is not the map's", lineno);
+          dlen = 0; dput(""); dput_val(val, refs[T].vw); O("getk %s", dbuf);
+        }
+      } else {
+        var exc; V_TRY(exc, rem(trees[T], K));          /* K lives in the node that is removed */
+        if (exc) X("sig=tree-keyerror line=%zu what=rem of the tree's own key object raised %s", lineno, v_exc_name(exc));
+        if (had) { ref_rem(&refs[T], &kv); st_rem++; }
+        dump_state(dump, sizeof dump, trees[T], &refs[T], automode);
+        O("remk %s %s", exc ? v_exc_name(exc) : "ok", dump);
+      }
+      st_ops++;
+    }
+    else if ((!strcmp(op, "walk") && ntok == 3) || (!strcmp(op, "walkself") && ntok == 2)) {
+      /* updating a map while walking its keys: every call gives the tree its own key object (and, walkself, its own value) */
+      NEED_TREE(1);
+      int self_ = ntok == 2;
+      if (!self_ && !parse_val(toks[2], refs[T].vw, vv)) BAD;
+      struct Tree* m = trees[T]; size_t cnt = 0, n = m->nitems; var exc = NULL;
+      for (var key = iter_init(trees[T]); key != Terminal; key = iter_next(trees[T], key)) {
+        if (cnt++ > n) { X("sig=tree-iter line=%zu what=iteration interleaved with set of present keys does not reach Terminal", lineno); break; }
+        if (self_) V_TRY(exc, set(trees[T], key, get(trees[T], key)));
+        else V_TRY(exc, set(trees[T], key, VALOBJS(refs[T].vw, vv, vs)));
+        if (exc) { X("sig=tree-raise line=%zu what=set inside foreach raised %s", lineno, v_exc_name(exc)); break; }
+        st_own_key++; st_self_key_assign++; if (refs[T].kk == KS) st_self_string_assign++;
+        if (self_) { st_own_val++; st_self_val_assign++; if (refs[T].vw == 0) st_self_string_assign++; }
+      }
+      if (cnt != n) X("sig=tree-iter line=%zu what=foreach with set of its own keys visited %zu keys, the map has %zu", lineno, cnt, n);
+      if (!self_) for (size_t i = 0; i < refs[T].n; i++) {
+        memcpy(refs[T].e[i]->v, vv, sizeof refs[T].e[i]->v);
+        char* nsv = vs ? strdup(vs) : NULL; free(refs[T].e[i]->sv); refs[T].e[i]->sv = nsv; }
+      dump_state(dump, sizeof dump, trees[T], &refs[T], automode);
+      O("%s %s %s", op, exc ? v_exc_name(exc) : "ok", dump); st_walk++; st_ops++;
+    }
     else if (!strcmp(op, "set") && ntok == 4) {
       NEED_TREE(1);
       if (!parse_key(toks[2], refs[T].kk, &kv) || !parse_val(toks[3], refs[T].vw, vv)) BAD;
       size_t before = len(trees[T]), p;
       int had = ref_find(&refs[T], &kv, &p);
-      var exc; V_TRY(exc, set(trees[T], KEYOBJ(refs[T].kk, kv), VALOBJ(refs[T].vw, vv)));
+      var exc; V_TRY(exc, set(trees[T], KEYOBJ(refs[T].kk, kv), VALOBJS(refs[T].vw, vv, vs)));
       if (exc) X("sig=tree-raise line=%zu what=set of a key and a value of the tree's types raised %s", lineno, v_exc_name(exc));
-      ref_set(&refs[T], &kv, vv);
+      ref_set(&refs[T], &kv, vv, vs);
       if (had) st_set_upd++; else st_set_new++;
       if (len(trees[T]) != before + (had ? 0 : 1)) X("sig=tree-map line=%zu what=set of %s key changed len from %zu to %zu", lineno, had ? "a present" : "an absent", before, len(trees[T]));
       if (exc) { O("set %s n=%zu", v_exc_name(exc), len(trees[T])); st_ops++; goto next; }
@@ -500,7 +685,7 @@ int main(int argc, char** argv) {
           var victim = node;
           if (*Tree_Left(m, node) && *Tree_Right(m, node)) {
             st_rem2++; victim = Tree_Maximum(m, *Tree_Left(m, node));
-            if (kwords(refs[T].kk) != refs[T].vw) st_rem2_wide++;
+            if ((size_t)kwords(refs[T].kk) * 8 != vbytes(refs[T].vw)) st_rem2_wide++;
           }
           if (Tree_Is_Black(m, victim)) st_remblack++;
         }
@@ -520,10 +705,14 @@ int main(int argc, char** argv) {
       if (!had && exc != KeyError) X("sig=tree-keyerror line=%zu what=get of an absent key raised %s instead of KeyError", lineno, v_exc_name(exc));
       if (exc) { O("get %s", v_exc_name(exc)); st_keyerr++; }
       else {
-        long w[MAXW]; obj_valwords(val, refs[T].vw, w);
-        if (had) for (int j = 0; j < refs[T].vw; j++) if (w[j] != refs[T].e[p]->v[j]) {
-          X("sig=tree-map line=%zu what=get returned a value whose word %d is %ld, reference map has %ld", lineno, j, w[j], refs[T].e[p]->v[j]); break; }
-        dlen = 0; dput(""); dput_words(w, refs[T].vw);
+        if (refs[T].vw == 0) {
+          if (had && strcmp(c_str(val), refs[T].e[p]->sv)) X("sig=tree-map line=%zu what=get returned the String \"%.40s\", reference map has \"%.40s\"", lineno, c_str(val), refs[T].e[p]->sv);
+        } else {
+          long w[MAXW]; obj_valwords(val, refs[T].vw, w);
+          if (had) for (int j = 0; j < refs[T].vw; j++) if (w[j] != refs[T].e[p]->v[j]) {
+            X("sig=tree-map line=%zu what=get returned a value whose word %d is %ld, reference map has %ld", lineno, j, w[j], refs[T].e[p]->v[j]); break; }
+        }
+        dlen = 0; dput(""); dput_val(val, refs[T].vw);
         O("get %s", dbuf);
       }
       st_ops++;
@@ -595,6 +784,8 @@ int main(int argc, char** argv) {
   I("ops=%zu set_new=%zu set_update=%zu rem=%zu rem_two_children=%zu rem_two_children_ksize_ne_vsize=%zu rem_root=%zu rem_black=%zu keyerror=%zu max_n=%zu max_height=%zu full_checks=%zu assign_copy_from_empty=%zu assign_copy_from_singleton=%zu assign_across_layouts=%zu",
     st_ops, st_set_new, st_set_upd, st_rem, st_rem2, st_rem2_wide, st_remroot, st_remblack, st_keyerr, st_maxn, st_maxh, st_checks,
     st_assign_empty, st_assign_one, st_assign_retype);
+  I("own_key_args=%zu own_value_args=%zu key_assigned_from_itself=%zu value_assigned_from_itself=%zu string_assigned_from_itself=%zu walks=%zu assign_from_foreign_map=%zu new_odd_count=%zu",
+    st_own_key, st_own_val, st_self_key_assign, st_self_val_assign, st_self_string_assign, st_walk, st_assign_map, st_new_odd);
   for (int i = 0; i < MAXT; i++) if (trees[i]) { del(trees[i]); trees[i] = NULL; }
   return 0;
 }
